@@ -144,6 +144,14 @@ def _mut_text(rng):
     elif q < 0.09:
         text = text.replace("\n", "\r\n")      # CRLF text (str / bytes only)
         kinds.append("crlf")
+    elif q < 0.13:
+        # every line terminator drawn separately: LF, CRLF, bare CR, doubled CR before LF (unix2dos twice), LF CR;
+        # possibly a last line ended by a bare CR
+        parts = text.split("\n")
+        text = "".join(pt + rng.choice(["\n", "\r\n", "\r", "\r\r\n", "\n", "\r\n", "\n\r"]) for pt in parts[:-1]) + parts[-1]
+        if rng.random() < 0.3 and text.endswith("\n"):
+            text = text[:-1].rstrip("\r") + "\r"
+        kinds.append("mixedeol")
     return text, kinds
 
 
